@@ -71,7 +71,7 @@ G0 == [tr |-> -1, brought |-> 0, taken |-> 0, banks |-> <<>>, bankIds |-> {}, la
        missed |-> <<>>, missedIds |-> {}, ext |-> FALSE, closedBetween |-> FALSE, lastStatus |-> "none",
        cnt |-> <<>>, cntIds |-> {}, actEvents |-> <<>>, spyCalls |-> <<>>, inGate |-> "", blindSet |-> <<>>, blindSetInGate |-> FALSE,
        leftSince |-> {}, faults |-> 0, lastUpd |-> 0, kfMidLeave |-> FALSE,
-       withholdSt |-> <<>>, settledSt |-> <<>>, openSt |-> <<>>, callQ |-> <<>>, pubH |-> <<>>, nospy |-> FALSE, engineHand |-> <<>>, engineStatus |-> "none", lastGcSeen |-> 0, enginePlayers |-> 0, autoFails |-> 0, errEvents |-> 0, afterFire |-> FALSE, fireSt |-> <<>>]
+       withholdSt |-> <<>>, settledSt |-> <<>>, openSt |-> <<>>, callQ |-> <<>>, pubH |-> <<>>, nospy |-> FALSE, ownTid |-> "", engineHand |-> <<>>, engineStatus |-> "none", lastGcSeen |-> 0, enginePlayers |-> 0, autoFails |-> 0, errEvents |-> 0, afterFire |-> FALSE, fireSt |-> <<>>]
 
 Fn(f, ids, x, d) == IF x \in ids THEN f[x] ELSE d
 ZeroCnt == [at |-> 0, ct |-> 0, kt |-> 0, fold |-> FALSE, fr |-> ""]
@@ -85,7 +85,7 @@ Upd(gg, k) ==
   ELSE
   LET st == t.st
       g1 == \* ---- chips brought in / taken out (C01), from call returns
-        IF t.ev = "ret:CreateTable" /\ t.res = "ok" THEN [gg EXCEPT !.brought = JoinChips(t.a.joins)]
+        IF t.ev = "ret:CreateTable" /\ t.res = "ok" THEN [gg EXCEPT !.brought = JoinChips(t.a.joins), !.ownTid = st.tid]
         ELSE IF t.ev \in {"ret:PlayerReserve", "ret:PlayerRedeemChips"} /\ t.res = "ok" THEN [gg EXCEPT !.brought = @ + t.a.chips]
         ELSE IF t.ev = "ret:PlayersLeave" /\ t.res = "ok" THEN [gg EXCEPT !.taken = @ + LeaversBank(t.pre[1], t.a.ids), !.leftSince = @ \cup Range(t.a.ids)]
         ELSE IF t.ev = "ret:UpdateTablePlayers" /\ t.res = "ok"
@@ -138,13 +138,14 @@ Upd(gg, k) ==
         IN [gC EXCEPT !.banks = Banks(st), !.bankIds = Ids(st), !.lastStatus = st.status]
       g5 == \* players that left the table lose their waiting counters
         IF t.ev \in {"ret:PlayersLeave", "ret:UpdateTablePlayers"} /\ t.res = "ok"
-        THEN [g4 EXCEPT !.missedIds = @ \ Range(t.a.ids),
-                        !.kfMidLeave = @ \/ (g4.handLive /\ \E id \in Range(t.a.ids) : id \in Range(g4.handIds))]
+        THEN [g4 EXCEPT !.missedIds = @ \ Range(t.a.ids)]
+        ELSE IF t.ev \in {"call:PlayersLeave", "call:UpdateTablePlayers"}      \* (announced before the call: its events come first)
+        THEN [g4 EXCEPT !.kfMidLeave = @ \/ (g4.handLive /\ \E id \in Range(t.a.ids) : id \in Range(g4.handIds))]
         ELSE g4
       g6 == IF t.ev = "withhold" THEN [g5 EXCEPT !.withholdSt = <<st>>] ELSE g5
       g7 == IF t.ev \in {"q", "end"} THEN [g6 EXCEPT !.settledSt = <<>>] ELSE g6
       g7b == IF t.ev = "spy" /\ t.res = "fail" /\ t.a.kind \in {"readyall", "ante", "blinds", "next", "create"} THEN [g7 EXCEPT !.autoFails = @ + 1]
-             ELSE IF t.ev = "cb:error" /\ t.res = "ErrInjected" THEN [g7 EXCEPT !.errEvents = @ + 1] ELSE g7
+             ELSE IF t.ev = "cb:error" THEN [g7 EXCEPT !.errEvents = @ + 1] ELSE g7
       g7c == IF t.ev = "cb:updated" THEN [g7b EXCEPT !.engineHand = st.hand, !.engineStatus = st.status, !.lastGcSeen = st.gc, !.enginePlayers = Len(st.players)] ELSE g7b
       g8 == IF t.ev = "hook" /\ t.a.kind = "continue.fire" THEN [g7c EXCEPT !.afterFire = TRUE, !.fireSt = <<st>>]
             ELSE IF ~IsRet(t) /\ t.ev \notin {"actorview", "actorsdone"} THEN [g7c EXCEPT !.afterFire = FALSE] ELSE g7c
@@ -240,10 +241,15 @@ C20_observerHidden(t) == (t.ev = "actorview" /\ t.a.kind \in ObserverKinds /\ Ha
 \* what the non-system observer hides is invisible to the system observer delivered before or after it, and to the engine
 \* (pre = the engine's table as projected in the same callback just before it was handed to the actors)
 C20_otherActorsIntact(t, gg) == (t.ev = "actorview" /\ t.a.kind = "system" /\ Len(t.pre) = 1) => t.st.hand = t.pre[1].hand
-C20_engineIntact(t, gg) == (t.ev = "actorsdone" /\ Len(t.pre) = 1) => t.st.hand = t.pre[1].hand
+C20_engineIntact(t, gg) ==
+  (t.ev = "actorsdone" /\ Len(t.pre) = 1) =>
+    /\ t.st.hand = t.pre[1].hand /\ t.a.note # "tampered"
+    /\ \A i \in 1..Len(t.st.players) : t.st.players[i].bank >= 0
+C20_viewsIntact(t) == (t.ev = "actorview") => \A i \in 1..Len(t.st.players) : t.st.players[i].bank >= 0
 \* ---------------------------------------------------------------- C17 (calls routed through the manager)
 MgrLines == {"mgrprobe", "mgrclose", "mgrbystander"}
 C17_bystandersUntouched(t) == (t.by # "") => t.by = "same"
+C17_ownTableOnly(t, gg) == (gg.ownTid # "" /\ t.ev \in {"cb:updated", "cb:state", "cb:error"} /\ t.st.status # "none") => t.st.tid = gg.ownTid
 C17_notFound(t) == (t.ev = "mgrprobe") => t.res = "ErrManagerTableNotFound"
 C17_closeRemoves(t) == (t.ev = "mgrclose") => t.res = "ok"
 C17_bystandersRemain(t) == (t.ev = "mgrbystander") => t.res = "ok"
@@ -491,9 +497,11 @@ CheckLine(k, gg) ==
   (t.ev \in MgrLines /\ Clause("C17_notFound", C17_notFound(t), "", k) /\ Clause("C17_closeRemoves", C17_closeRemoves(t), "", k)
                     /\ Clause("C17_bystandersRemain", C17_bystandersRemain(t), "", k) /\ Clause("C17_bystandersUntouched", C17_bystandersUntouched(t), "", k)) \/
   (t.ev \in {"actorview", "actorsdone"} /\ Clause("C20_observerHidden", C20_observerHidden(t), "", k)
-      /\ Clause("C20_otherActorsIntact", C20_otherActorsIntact(t, gg), "", k) /\ Clause("C20_engineIntact", C20_engineIntact(t, gg), "", k)) \/
+      /\ Clause("C20_otherActorsIntact", C20_otherActorsIntact(t, gg), "", k) /\ Clause("C20_engineIntact", C20_engineIntact(t, gg), "", k)
+      /\ Clause("C20_viewsIntact", C20_viewsIntact(t), "", k)) \/
   /\ t.ev \notin MgrLines /\ t.ev \notin {"actorview", "actorsdone"}
   /\ Clause("C17_bystandersUntouched", C17_bystandersUntouched(t), "", k)
+  /\ Clause("C17_ownTableOnly", C17_ownTableOnly(t, gg), "", k)
   /\ (midOp \/ t.a.note = "background" \/ MemberConforms(t) \/ PrintT(<<"DRIFT", k, t.ev, t.res>>))
   /\ (PositionsConform(t) \/ PrintT(<<"DRIFT", k, "positions", "open">>))
   /\ Clause("C18_botTablePlaysOut", t.ev # "botstall", "", k)
